@@ -11,11 +11,17 @@ type opDef struct {
 	probe *probe
 	src   string
 	tier  int
+	// core: member of the reduced alphabet the thorough tier uses for its
+	// last level (history length 6)
+	core bool
+	// prog: the transition is ALSO executed in program mode (history + this
+	// operation as one LoadString source), not only per form
+	prog bool
 }
 
 // Watched names: a (data), f (function), m (macro).  None of them is a name of
 // the language package (checked at start-up).
-var watched = []string{"a", "f", "m"}
+var watched = []string{"a", "f", "m", "g"}
 
 func inPkg(p string) *node           { return nCall("in-package", nQS(p)) }
 func setq(sym string, v *node) *node { return nCall("set", nQS(sym), v) }
@@ -95,7 +101,6 @@ func buildAlphabet() []*opDef {
 		{Name: "let-a:ref:a", Class: "lexical-ref", form: letA(10, nS("a"))},
 		{Name: "let-a:call:f", Class: "lexical-call", form: letA(10, nCall("f"))},
 		{Name: "let-a:call:m", Class: "lexical-macro", form: letA(10, nCall("m"))},
-		{Name: "let-a:ref:p:a", Class: "lexical-qualified", form: letA(10, nS("p:a")), tier: 1},
 		{Name: "let-a:set!:a", Class: "lexical-set!", form: letA(10, nCall("set!", nS("a"), nI(11)), nS("a"))},
 		{Name: "let-a:set:a=12", Class: "lexical-set", form: letA(10, setq("a", nI(12)), nS("a"))},
 		{Name: "lambda-a:ref:a", Class: "lexical-param", form: nL(nCall("lambda", nL(nS("a")), nS("a")), nI(13))},
@@ -118,12 +123,83 @@ func buildAlphabet() []*opDef {
 		{Name: "probe:macrolet:true", Class: "bind-constant:macrolet", probe: valProbe(), src: "(macrolet ((true () 1)) (true))", tier: 1},
 		{Name: "probe:dotimes:false", Class: "bind-constant:dotimes", probe: valProbe("false", "()"), src: "(dotimes (false 2) false)", tier: 1},
 	}
+	ops = append(ops, shadowOps()...)
 	for _, o := range ops {
 		if o.form != nil {
 			o.src = o.form.render()
 		}
+		if coreOps[o.Name] {
+			o.core = true
+		}
+	}
+	for n := range coreOps {
+		found := false
+		for _, o := range ops {
+			found = found || o.Name == n
+		}
+		if !found {
+			panic("c08: coreOps names an unknown operation " + n)
+		}
 	}
 	return ops
+}
+
+// shadowOps: every qualified reference form P:a (P in user, p, q — including
+// the package that is current at that point) under every kind of lexical
+// binding of the same name, and P:f as the operator of a call while a local
+// function f shadows it.  The model's answer is always the PACKAGE binding
+// (or the unbound-symbol error), never the lexical one.
+func shadowOps() []*opDef {
+	var ops []*opDef
+	empty := nL()
+	for _, P := range []string{"user", "p", "q"} {
+		qa := nS(P + ":a")
+		qf := nCall(P + ":f")
+		t1 := 1
+		ops = append(ops,
+			&opDef{Name: "let-a:ref:" + P + ":a", Class: "shadowed-qualified:let", form: letA(10, qa), prog: true},
+			&opDef{Name: "let*-a:ref:" + P + ":a", Class: "shadowed-qualified:let*",
+				form: nL(nS("let*"), nL(nL(nS("a"), nI(10))), qa), prog: true, tier: t1},
+			&opDef{Name: "lambda-a:ref:" + P + ":a", Class: "shadowed-qualified:lambda-param",
+				form: nL(nCall("lambda", nL(nS("a")), qa), nI(10)), prog: true},
+			// the loop variable is 0; the value read inside the loop is carried out through r
+			&opDef{Name: "dotimes-a:ref:" + P + ":a", Class: "shadowed-qualified:dotimes",
+				form: nL(nS("let"), nL(nL(nS("r"), nI(0))),
+					nL(nS("dotimes"), nL(nS("a"), nI(1)), nCall("set!", nS("r"), qa)), nS("r")), prog: true},
+			&opDef{Name: "flet-f:call:" + P + ":f", Class: "shadowed-qualified:flet-operator",
+				form: nL(nS("flet"), nL(nL(nS("f"), empty, nI(20))), qf), prog: true},
+			&opDef{Name: "labels-f:call:" + P + ":f", Class: "shadowed-qualified:labels-operator",
+				form: nL(nS("labels"), nL(nL(nS("f"), empty, nI(20))), qf), prog: true, tier: t1},
+		)
+		// a function DEFINED in P whose formal is named a and whose body says
+		// P:a; P is current while the body runs, whoever calls it
+		tP := 1
+		if P == "p" {
+			tP = 0
+		}
+		ops = append(ops,
+			&opDef{Name: "lambda-made-in:" + P + ":param-a:ref:" + P + ":a", Class: "shadowed-qualified:param-of-function-made-in-package",
+				form: nL(nCall("load-string", nP(inPkg(P), nCall("lambda", nL(nS("a")), qa))), nI(10)), prog: true, tier: tP},
+			&opDef{Name: "load:" + P + ":defun-g-param-a-reads-" + P + ":a", Class: "defun-param-shadow",
+				form: nCall("load-string", nP(inPkg(P), nCall("defun", nS("g"), nL(nS("a")), qa))), tier: tP},
+			&opDef{Name: "call:" + P + ":g", Class: "shadowed-qualified:defun-param",
+				form: nCall(P+":g", nI(10)), prog: true, tier: tP},
+		)
+	}
+	return ops
+}
+
+// coreOps is the reduced alphabet of the thorough tier's last level.
+var coreOps = map[string]bool{
+	"in-package:p": true, "in-package:q": true, "in-package:user": true,
+	"export:a": true, "export:f": true, "use-package:p": true, "use-package:q": true,
+	"set:a=1": true, "set:a=2": true, "set:p:a=3": true, "set!:a=4": true,
+	"defun:f-reads-a": true, "defun:f-sets-a=5": true, "defmacro:m-expands-a": true,
+	"load:q:set-a=6": true, "load:p:nested-q:set-a": true, "load:q:set-a=9:fails": true, "load:p:lib": true,
+	"ref:a": true, "ref:p:a": true, "ref:q:a": true, "call:f": true, "call:p:f": true, "call:q:f": true,
+	"call:m": true, "call:p:m": true, "let-a:call:f": true, "let-a:call:m": true,
+	"let-a:ref:user:a": true, "let-a:ref:p:a": true, "let-a:ref:q:a": true,
+	"flet-f:call:p:f": true, "call:p:g": true,
 }
 
 var allOps = buildAlphabet()
